@@ -205,7 +205,7 @@ def _execute_l1(scn):
     viol = None
     results = []
     multi_recv_ops = 0
-    injected = tuple(sorted(set(("TimeoutError",) + ERROR_NAMES)))
+    injected = tuple(sorted({"TimeoutError"} | {n.partition("/")[0] for n in ERROR_NAMES}))
 
     enc = scn.get("enc", 0)
     memo = {"pos": -1, "dec": b""}
